@@ -40,7 +40,22 @@ def engine_env():
     return e
 
 
+def sweep_tmp():
+    """scratch directories of engine workers that are gone (build/tmp/<letter><pid>) are removed: they only ever grow"""
+    import re
+    base = os.path.join(ROOT, "build", "tmp")
+    try:
+        names = os.listdir(base)
+    except OSError:
+        return
+    for n in names:
+        m = re.search(r"(\d+)$", n)
+        if m and not os.path.exists("/proc/" + m.group(1)):
+            shutil.rmtree(os.path.join(base, n), ignore_errors=True)
+
+
 def run_engine(exe, prop, tier, seed, outdir, jobs):
+    sweep_tmp()
     shutil.rmtree(outdir, ignore_errors=True)
     os.makedirs(outdir, exist_ok=True)
     cmd = [exe, "run", prop, "--tier", tier, "--seed", str(seed), "--jobs", str(jobs), "--out", outdir, "--known", KNOWN]
